@@ -2,12 +2,16 @@
 # tools/benign.sh <name>...: applies benign/<name>.diff (a behaviour-preserving change written by an independent agent) to a scratch
 # copy of /repo and runs every quick check against it; any exit code other than 0 is a false alarm (or an inconclusive run) to look at.
 cd "$(dirname "$0")/.."
+# (the checks are run from a private copy of /verif taken now, so that edits made while this runs cannot show up as alarms)
+V=$(mktemp -d /tmp/benign-verif.XXXXXX)
+rsync -a --exclude .git --exclude replays --exclude evidence --exclude __pycache__ --exclude seeded ./ $V/
+trap 'rm -rf $V' EXIT
 for n in "$@"; do
   d=$(mktemp -d /tmp/benign.XXXXXX)
   rsync -a --exclude .git --exclude __pycache__ /repo/ $d/
   if ! (cd $d && patch -p1 -s -i /verif/benign/$n.diff); then echo "$n PATCH-FAILS"; rm -rf $d; continue; fi
   for i in $(seq -w 1 20); do
-    out=$(REPID_SRC=$d ./check C$i --tier quick --no-evidence 2>&1); rc=$?
+    out=$(cd $V && REPID_SRC=$d ./check C$i --tier quick --no-evidence 2>&1); rc=$?
     if [ $rc -ne 0 ]; then echo "$n C$i rc=$rc"; echo "$out" | grep -E "^VIOLATION|^INCONCLUSIVE|required|shard problem" | head -4 | cut -c1-400; fi
   done
   echo "$n done"
